@@ -147,6 +147,11 @@ func cmdVerify(args []string) int {
 				}
 				fmt.Println("       answers:", o.Answers)
 				if *showSMT {
+					if ft, dropped := smtTextFiltered(o); dropped {
+						fmt.Println(";; ---- stage A (filtered) ----")
+						fmt.Println(ft)
+					}
+					fmt.Println(";; ---- full ----")
 					fmt.Println(smtText(o, false))
 				}
 			}
